@@ -405,15 +405,53 @@ def pair_cases(ck, L, G):
             up = G.steps_to_document(par)
             if up and (ms.get(e["py"]) not in (None, c)):
                 chains.append(inner + [(par, e)] + up)
+            # the violated component duplicated as a VALID twin (same class, same id, equal values but the violated one)
+            # elsewhere in the tree, visited earlier and later: siblings in one list, cousins under two parents
+            good = G.tree(vc, 0)
+            bad = json.loads(json.dumps(good))
+            apply_op(L, G, bad, member, op)
+            st0 = chains[0]
+            twins = []
+            if st0[0][1]["kind"] == "objlist" and st0[0][1]["hi"] is None:
+                twins += [("sibling-twin-first", [good, bad], st0), ("sibling-twin-last", [bad, good], st0)]
+            if len(st0) == 1:       # cousins need a grandparent that holds a list of the parent
+                ups = [(gp, e2) for gp, e2 in L.parents.get(par, []) if e2["kind"] == "objlist" and e2["hi"] is None]
+                if ups:
+                    st0 = st0 + [ups[0]]
+            if len(st0) >= 2 and st0[1][1]["kind"] == "objlist" and st0[1][1]["hi"] is None:
+                pa, _ = G.embed(good, st0[:1])
+                pb, _ = G.embed(bad, st0[:1])
+                pb["kw"] = [[k, ({"s": v["s"] + "b"} if k == "id" and v and "s" in v else v)] for k, v in
+                            json.loads(json.dumps([kv for kv in pa["kw"] if kv[0] != st0[0][1]["py"]]))] + \
+                           [kv for kv in pb["kw"] if kv[0] == st0[0][1]["py"]]
+                twins += [("cousin-twin-first", [pa, pb], st0[1:]), ("cousin-twin-last", [pb, pa], st0[1:])]
+            for label, kids, steps in twins:
+                rt, path = G.embed(kids[0], steps)
+                holder = base_node(rt, path[:-1])
+                for kv in holder["kw"]:
+                    if kv[0] == steps[0][1]["py"]:
+                        kv[1] = {"l": kids}
+                cases.append({"tree": rt, "tag": "neuroml" if rt["cls"] == root else "probe_" + rt["cls"], "doc": rt["cls"] == root,
+                              "type": vc, "member": member, "facet": facet, "inherited": inh, "depth": len(st0),
+                              "via_inherited": any(x["owner"] != p_ for p_, x in st0[:-1]), "path": path,
+                              "pair": "%s.%s" % (par, e["py"]), "twin": label})
             for steps in chains:
-                t = G.tree(vc, 0)
-                apply_op(L, G, t, member, op)
+                t = json.loads(json.dumps(bad))
                 rt, path = G.embed(t, steps)
                 cases.append({"tree": rt, "tag": "neuroml" if rt["cls"] == root else "probe_" + rt["cls"], "doc": rt["cls"] == root,
                               "type": vc, "member": member, "facet": facet, "inherited": inh, "depth": len(steps),
                               "via_inherited": any(x["owner"] != p_ for p_, x in steps[:-1]), "path": path,
                               "pair": "%s.%s" % (par, e["py"]), "types_differ": ms.get(e["py"]) not in (None, c)})
     return cases, differ, uncovered
+
+
+def base_node(tree, path):
+    """the keyword-tree node reached from the root along path ([[member, index|None]..])"""
+    node = tree
+    for member, idx in path:
+        v = dict((k, x) for k, x in node["kw"])[member]
+        node = v["l"][idx] if idx is not None else v["o"]
+    return node
 
 
 def file_history_part(ck, L, G, order, n):
@@ -502,16 +540,21 @@ def judge(ck, L, cs, r):
     if r["lx"]["valid"]:
         ck.tally("prop:skipped:libxml2-accepts (not a violation)")
         return
+    if cs.get("twin"):
+        ck.tally("prop:twin:" + cs["twin"])
     ck.tally("prop:facet:" + cs["facet"])
     ck.tally("prop:depth:%d" % cs["depth"])
     ck.tally("prop:" + ("inherited" if cs["inherited"] else "own") + "-member")
-    ck.count(1, nontrivial_key=(cs["type"], cs["member"], cs["facet"], cs["depth"]),
+    ck.count(1, nontrivial_key=(cs["type"], cs["member"], cs["facet"], cs["depth"], cs.get("twin")),
              sample={"type": cs["type"], "member": cs["member"], "facet": cs["facet"], "depth": cs["depth"],
                      "xml": (r.get("text") or "")[-300:], "validate": r["rec"]["raised"]} if len(ck.samples) < 4 else None)
     raised = r["rec"]["raised"]
     key = key_of(cs["facet"], cs["inherited"], cs["depth"], cs["via_inherited"]) or \
         "C03:%s.%s:%s" % (cs["type"], cs["member"], cs["facet"])
     inp = {k: cs[k] for k in ("tree", "tag", "doc", "type", "member", "facet", "depth", "pair") if k in cs}
+    if cs.get("twin"):
+        key = "C03:violation-beside-a-valid-same-id-twin-not-validated"
+        inp["twin"] = cs["twin"]
     if cs.get("types_differ") and not (cs["facet"] in ("integer-range", "fixed") or "choice" in cs["facet"]):
         key = "C03:children-under-%s-not-validated(MemberSpec-type-differs-from-their-class)" % cs["pair"]
     if raised is None:
